@@ -15,11 +15,15 @@ import (
 // operand is a NaN or when both are zeros, WebAssembly answers NaN and orders -0 below +0).
 //
 // The f32/f64 min/max arms of wat2x64 are read as a straight list of assembler lines and label definitions and
-// interpreted — no code is assembled or run — over a small model of the SSE scalar instructions they use (loads and
-// stores of the operand slots, movaps/movapd, min/max/add, orps/andps/xorps on the bit patterns, ucomis* setting
-// ZF/PF/CF, conditional and unconditional jumps to the arm's own labels), for the 49 operand pairs from
-// {NaN, -inf, -1.5, -0, +0, 2, +inf}. The stored result must be WebAssembly's. An instruction outside the model makes
-// the arm undecided.
+// interpreted — no code is assembled or run — over the instruction model of c02_x64sim.go, for the 49 operand pairs
+// from {NaN, -inf, -1.5, -0, +0, 2, +inf}. The stored result must be WebAssembly's. An instruction outside the model
+// makes the arm undecided.
+//
+// Rule x64-conversion-semantics does the same for the sixteen float<->integer conversion arms (added after probing
+// showed cvttsd2si/cvtsi2sd used for the unsigned 64-bit conversions: wrong from 2^63 up): for a set of in-range
+// operands that includes the boundaries of the signed and unsigned ranges, the stored result is the truncated /
+// correctly rounded value. A 32-bit operand slot has a poisoned upper half, so a template that reads a 32-bit operand
+// with a 64-bit load is seen as well.
 
 type x64Line struct {
 	label string   // a label definition (the identifier passed to gasFuncLabel)
@@ -54,223 +58,15 @@ func x64ArmLines(info *types.Info, arm Arm) ([]x64Line, bool) {
 		if fn := CalleeOf(info, call); fn != nil && fn.Pkg() != nil && fn.Pkg().Path() == "fmt" && fn.Name() == "Fprintln" {
 			continue
 		}
+		if id, ok := call.Fun.(*ast.Ident); ok && id.Name == "assert" {
+			continue // a translation-time check, writes nothing
+		}
 		return nil, false
 	}
 	return out, true
 }
 
 var reX64Ins = regexp.MustCompile(`^\s*([a-z0-9]+)\s*([^#\n]*?)\s*(#.*)?\n?$`)
-
-type sseMachine struct {
-	wide       bool // sd: 64-bit lanes
-	xmm        map[string]float64
-	zf, pf, cf bool
-}
-
-func (m *sseMachine) bits(v float64) uint64 {
-	if m.wide {
-		return math.Float64bits(v)
-	}
-	return uint64(math.Float32bits(float32(v)))
-}
-func (m *sseMachine) from(b uint64) float64 {
-	if m.wide {
-		return math.Float64frombits(b)
-	}
-	return float64(math.Float32frombits(uint32(b)))
-}
-
-// x64MinMaxRun interprets the lines for operands a (second popped, the left operand) and b; answers the stored value.
-func x64MinMaxRun(lines []x64Line, wide bool, a, b float64, slotA, slotB, slotRet string) (float64, string) {
-	m := &sseMachine{wide: wide, xmm: map[string]float64{}}
-	labelAt := map[string]int{}
-	for i, l := range lines {
-		if l.label != "" {
-			labelAt[l.label] = i
-		}
-	}
-	var result *float64
-	steps := 0
-	for pc := 0; pc < len(lines); pc++ {
-		steps++
-		if steps > 200 {
-			return 0, "the arm does not reach its end"
-		}
-		l := lines[pc]
-		if l.label != "" {
-			continue
-		}
-		mm := reX64Ins.FindStringSubmatch(l.text)
-		if mm == nil {
-			if strings.HasPrefix(strings.TrimSpace(l.text), "#") {
-				continue
-			}
-			return 0, "line not read: " + strings.TrimSpace(l.text)
-		}
-		op := mm[1]
-		// operands: split at the top-level comma; a memory operand is named by the line's argument
-		var ops []string
-		for _, o := range strings.Split(mm[2], ",") {
-			if o = strings.TrimSpace(o); o != "" {
-				ops = append(ops, o)
-			}
-		}
-		argi := 0
-		read := func(o string) (float64, bool) {
-			if strings.Contains(o, "[rbp%") {
-				if argi >= len(l.args) {
-					return 0, false
-				}
-				name := l.args[argi]
-				argi++
-				switch name {
-				case slotA:
-					return a, true
-				case slotB:
-					return b, true
-				}
-				return 0, false
-			}
-			v, ok := m.xmm[o]
-			return v, ok
-		}
-		jump := func(cond bool) string {
-			if len(l.args) != 1 {
-				return "jump without a label argument"
-			}
-			if !cond {
-				return ""
-			}
-			at, ok := labelAt[l.args[0]]
-			if !ok {
-				return "jump to a label the arm does not define: " + l.args[0]
-			}
-			pc = at
-			return ""
-		}
-		switch op {
-		case "movss", "movsd":
-			if len(ops) != 2 {
-				return 0, "operands of " + op
-			}
-			if strings.Contains(ops[0], "[rbp%") {
-				// a store
-				v, ok := m.xmm[ops[1]]
-				if !ok || len(l.args) != 1 {
-					return 0, "store of an undefined register"
-				}
-				if l.args[0] == slotRet {
-					r := v
-					result = &r
-				}
-				continue
-			}
-			v, ok := read(ops[1])
-			if !ok {
-				return 0, "load from an unknown slot in `" + strings.TrimSpace(l.text) + "`"
-			}
-			m.xmm[ops[0]] = v
-		case "movaps", "movapd":
-			v, ok := read(ops[1])
-			if !ok {
-				return 0, "read of an undefined register in `" + strings.TrimSpace(l.text) + "`"
-			}
-			m.xmm[ops[0]] = v
-		case "minss", "minsd", "maxss", "maxsd", "addss", "addsd", "subss", "subsd", "orps", "orpd", "andps", "andpd", "xorps", "xorpd":
-			if len(ops) != 2 {
-				return 0, "operands of " + op
-			}
-			x, ok1 := m.xmm[ops[0]]
-			y, ok2 := read(ops[1])
-			if !ok1 || !ok2 {
-				return 0, "read of an undefined register in `" + strings.TrimSpace(l.text) + "`"
-			}
-			var r float64
-			switch op[:3] {
-			case "min":
-				// SSE: the second operand when either is a NaN or both are zeros
-				if x < y {
-					r = x
-				} else {
-					r = y
-				}
-			case "max":
-				if x > y {
-					r = x
-				} else {
-					r = y
-				}
-			case "add":
-				r = x + y
-			case "sub":
-				r = x - y
-			case "orp":
-				r = m.from(m.bits(x) | m.bits(y))
-			case "and":
-				r = m.from(m.bits(x) & m.bits(y))
-			case "xor":
-				r = m.from(m.bits(x) ^ m.bits(y))
-			}
-			if !m.wide {
-				r = float64(float32(r))
-			}
-			m.xmm[ops[0]] = r
-		case "ucomiss", "ucomisd", "comiss", "comisd":
-			x, ok1 := m.xmm[ops[0]]
-			y, ok2 := read(ops[1])
-			if !ok1 || !ok2 {
-				return 0, "read of an undefined register in `" + strings.TrimSpace(l.text) + "`"
-			}
-			if math.IsNaN(x) || math.IsNaN(y) {
-				m.zf, m.pf, m.cf = true, true, true
-			} else {
-				m.zf, m.pf, m.cf = x == y, false, x < y
-			}
-		case "jmp":
-			if e := jump(true); e != "" {
-				return 0, e
-			}
-		case "jp":
-			if e := jump(m.pf); e != "" {
-				return 0, e
-			}
-		case "jnp":
-			if e := jump(!m.pf); e != "" {
-				return 0, e
-			}
-		case "je", "jz":
-			if e := jump(m.zf); e != "" {
-				return 0, e
-			}
-		case "jne", "jnz":
-			if e := jump(!m.zf); e != "" {
-				return 0, e
-			}
-		case "ja":
-			if e := jump(!m.cf && !m.zf); e != "" {
-				return 0, e
-			}
-		case "jae":
-			if e := jump(!m.cf); e != "" {
-				return 0, e
-			}
-		case "jb":
-			if e := jump(m.cf); e != "" {
-				return 0, e
-			}
-		case "jbe":
-			if e := jump(m.cf || m.zf); e != "" {
-				return 0, e
-			}
-		default:
-			return 0, "instruction outside the model: " + op
-		}
-	}
-	if result == nil {
-		return 0, "no store to the result slot"
-	}
-	return *result, ""
-}
 
 func c02MinMax(c *Ctx, p *Prog, pk *packages.Package) {
 	const rule = "x64-minmax-semantics"
@@ -327,9 +123,25 @@ func c02MinMax(c *Ctx, p *Prog, pk *packages.Package) {
 		und := ""
 		for _, a := range dom {
 			for _, b := range dom {
-				got, why := x64MinMaxRun(lines, wide, a, b, pops[1], pops[0], push)
+				const poison = uint64(0xDEADBEEF) << 32
+				sa, sb := x64Slot{math.Float64bits(a), 64}, x64Slot{math.Float64bits(b), 64}
+				if !wide {
+					sa = x64Slot{uint64(math.Float32bits(float32(a))) | poison, 32}
+					sb = x64Slot{uint64(math.Float32bits(float32(b))) | poison, 32}
+				}
+				bits, w, why := x64Run(lines, map[string]x64Slot{pops[1]: sa, pops[0]: sb}, push)
 				if why != "" {
 					und = why
+					continue
+				}
+				var got float64
+				switch {
+				case wide && w == 64:
+					got = math.Float64frombits(bits)
+				case !wide && w == 32:
+					got = float64(math.Float32frombits(uint32(bits)))
+				default:
+					und = fmt.Sprintf("the result is stored with a %d-bit operand", w)
 					continue
 				}
 				want := wasmMinMax(op, a, b)
@@ -347,4 +159,306 @@ func c02MinMax(c *Ctx, p *Prog, pk *packages.Package) {
 		c.Check(len(bad) == 0, rule, mn, loc, "49 operand pairs agree with WebAssembly's "+op, "interpreting the emitted instructions: "+strings.Join(bad, "; "))
 	}
 	c.Min(rule, "float min/max arms of wat2x64", n, 4)
+}
+
+// x64ArmSlots: the Go variables that hold the offsets of the popped slots (in pop order) and of the pushed slot.
+func x64ArmSlots(arm Arm) (pops []string, push string) {
+	for _, s := range arm.Body {
+		as, ok := s.(*ast.AssignStmt)
+		if !ok || len(as.Lhs) != 1 || len(as.Rhs) != 1 {
+			continue
+		}
+		txt := types.ExprString(as.Rhs[0])
+		if strings.Contains(txt, ".Pop(") {
+			pops = append(pops, types.ExprString(as.Lhs[0]))
+		}
+		if strings.Contains(txt, ".Push(") {
+			push = types.ExprString(as.Lhs[0])
+		}
+	}
+	return
+}
+
+func c02Conversions(c *Ctx, p *Prog, pk *packages.Package) {
+	const rule = "x64-conversion-semantics"
+	info := pk.TypesInfo
+	fd := findBuildFuncIns(pk)
+	if fd == nil {
+		c.Undecided(rule, "anchor:wat2x64.buildFunc_ins", "", "instruction dispatcher not found")
+		return
+	}
+	arms := map[string]Arm{}
+	for _, sw := range FindSwitches(fd, func(ast.Expr) bool { return true }) {
+		for _, arm := range SwitchArms(info, sw) {
+			arms[arm.Names()] = arm
+		}
+	}
+	const poison = uint64(0xDEADBEEF) << 32
+	two63 := math.Ldexp(1, 63)
+	floatCands := []float64{0, math.Copysign(0, -1), 0.99, -0.99, 1.5, -1.5, 65536.75, -65536.75, 2147483520, 2147483647.5, -2147483648, -2147483648.9, 2147483648, 4294967040, 4294967295.9,
+		1e15, -1e15, two63 / 2, two63 - 1024, two63 - math.Ldexp(1, 39), -two63, two63, two63 + 2048, two63 + math.Ldexp(1, 40), 1.8e19, math.Ldexp(1, 64) - 2048, math.Ldexp(1, 64) - math.Ldexp(1, 40)}
+	intCands := []uint64{0, 1, 0xFFFFFFFFFFFFFFFF, 0x7FFFFFFF, 0x80000000, 0xFFFFFFFF, 0x1000001, 0x20000000000001, 0x7FFFFFFFFFFFFFFF, 0x8000000000000000, 0x8000000000000401, 0x8000008000000001, 0xFFFFFFFFFFFFFBFF, 0xFFFFFF7FFFFFFFFF, 0x123456789ABCDEF0}
+	n := 0
+	for _, it := range []string{"I32", "I64"} {
+		for _, ft := range []string{"F32", "F64"} {
+			for _, sg := range []string{"S", "U"} {
+				for _, dir := range []string{"trunc", "convert"} {
+					k := "INS_" + it + "_TRUNC_" + ft + "_" + sg
+					mn := strings.ToLower(it) + ".trunc_" + strings.ToLower(ft) + "_" + strings.ToLower(sg)
+					if dir == "convert" {
+						k = "INS_" + ft + "_CONVERT_" + it + "_" + sg
+						mn = strings.ToLower(ft) + ".convert_" + strings.ToLower(it) + "_" + strings.ToLower(sg)
+					}
+					arm, ok := arms[k]
+					if !ok {
+						c.Undecided(rule, mn, p.Pos(fd.Pos()), "arm not found")
+						continue
+					}
+					loc := p.Pos(arm.Clause.Pos())
+					lines, ok := x64ArmLines(info, arm)
+					pops, push := x64ArmSlots(arm)
+					if !ok || len(pops) != 1 || push == "" {
+						c.Undecided(rule, mn, loc, "the arm is not a straight list of assembler lines with one operand slot")
+						continue
+					}
+					n++
+					iw := 32
+					if it == "I64" {
+						iw = 64
+					}
+					var bad []string
+					und := ""
+					cases := 0
+					if dir == "trunc" {
+						for _, x := range floatCands {
+							if ft == "F32" {
+								x = float64(float32(x))
+							}
+							t := math.Trunc(x)
+							// in range for the target type (out-of-range operands trap in WebAssembly: not modelled)
+							var want uint64
+							switch {
+							case sg == "S" && iw == 32 && t >= -2147483648 && t <= 2147483647:
+								want = uint64(uint32(int32(t)))
+							case sg == "U" && iw == 32 && t >= 0 && t <= 4294967295:
+								want = uint64(uint32(t))
+							case sg == "S" && iw == 64 && t >= -two63 && t < two63:
+								want = uint64(int64(t))
+							case sg == "U" && iw == 64 && t >= 0 && t < 2*two63:
+								want = uint64(t)
+							default:
+								continue
+							}
+							sl := x64Slot{math.Float64bits(x), 64}
+							if ft == "F32" {
+								sl = x64Slot{uint64(math.Float32bits(float32(x))) | poison, 32}
+							}
+							got, w, why := x64Run(lines, map[string]x64Slot{pops[0]: sl}, push)
+							if why != "" {
+								und = why
+								break
+							}
+							cases++
+							if (w != iw || got != want) && len(bad) < 3 {
+								bad = append(bad, fmt.Sprintf("%s(%v) stores %#x (%d-bit store), WebAssembly answers %#x", mn, x, got, w, want))
+							}
+						}
+					} else {
+						for _, v := range intCands {
+							v &= maskBits(iw)
+							var f float64
+							switch {
+							case sg == "S" && iw == 32:
+								f = float64(int32(uint32(v)))
+							case sg == "U" && iw == 32:
+								f = float64(uint32(v))
+							case sg == "S" && iw == 64 && ft == "F32":
+								f = float64(float32(int64(v)))
+							case sg == "S" && iw == 64:
+								f = float64(int64(v))
+							case ft == "F32":
+								f = float64(float32(v))
+							default:
+								f = float64(v)
+							}
+							want := math.Float64bits(f)
+							fw := 64
+							if ft == "F32" {
+								want, fw = uint64(math.Float32bits(float32(f))), 32
+							}
+							sl := x64Slot{v, 64}
+							if iw == 32 {
+								sl = x64Slot{v | poison, 32}
+							}
+							got, w, why := x64Run(lines, map[string]x64Slot{pops[0]: sl}, push)
+							if why != "" {
+								und = why
+								break
+							}
+							cases++
+							if (w != fw || got != want) && len(bad) < 3 {
+								bad = append(bad, fmt.Sprintf("%s(%#x) stores the bits %#x (%d-bit store), WebAssembly answers %#x (%v)", mn, v, got, w, want, f))
+							}
+						}
+					}
+					if und != "" {
+						c.Undecided(rule, mn, loc, und)
+						continue
+					}
+					c.Check(len(bad) == 0 && cases > 0, rule, mn, loc, fmt.Sprintf("%d in-range operands agree with WebAssembly", cases), "interpreting the emitted instructions: "+strings.Join(bad, "; "))
+				}
+			}
+		}
+	}
+	c.Min(rule, "conversion arms of wat2x64", n, 16)
+}
+
+// Rule x64-template-semantics: every numeric arm of wat2x64 with a fixed signature (integer and float arithmetic,
+// comparisons, bit counting, shifts and rotates, sign/zero extension, wrap, reinterpret, promote/demote, rounding) is
+// interpreted over the instruction model for a grid of boundary operands (all pairs for binary instructions) and the
+// stored result is compared with WebAssembly's (wasmnum.go). Operands WebAssembly traps on are skipped (the
+// translators have no trap model); a divide fault of the model on operands that do not trap is a violation.
+func c02TemplateSemantics(c *Ctx, p *Prog, pk *packages.Package) {
+	const rule = "x64-template-semantics"
+	info := pk.TypesInfo
+	fd := findBuildFuncIns(pk)
+	if fd == nil {
+		c.Undecided(rule, "anchor:wat2x64.buildFunc_ins", "", "instruction dispatcher not found")
+		return
+	}
+	arms := map[string]Arm{}
+	for _, sw := range FindSwitches(fd, func(ast.Expr) bool { return true }) {
+		for _, arm := range SwitchArms(info, sw) {
+			arms[arm.Names()] = arm
+		}
+	}
+	const poison = uint64(0xDEADBEEF) << 32
+	dom := map[string][]uint64{
+		"i32": {0, 1, 2, 3, 31, 32, 33, 0x7F, 0x80, 0xFF, 0x7FFF, 0x8000, 0xFFFF, 0x7FFFFFFF, 0x80000000, 0x80000001, 0xFFFFFFFE, 0xFFFFFFFF, 0xDEADBEEF, 0x12345678},
+		"i64": {0, 1, 2, 31, 32, 63, 64, 65, 0x7FFFFFFF, 0x80000000, 0xFFFFFFFF, 0x100000000, 0x7FFFFFFFFFFFFFFF, 0x8000000000000000, 0x8000000000000001, 0xFFFFFFFFFFFFFFFE, 0xFFFFFFFFFFFFFFFF, 0xDEADBEEFCAFEBABE, 0x0123456789ABCDEF},
+	}
+	for _, f := range []float64{math.NaN(), math.Inf(-1), -2.5, -1.5, -0.5, math.Copysign(0, -1), 0, 0.5, 1.5, 2.5, 3, 1e10, math.Inf(1), 16777217, 0.1} {
+		dom["f32"] = append(dom["f32"], uint64(math.Float32bits(float32(f))))
+		dom["f64"] = append(dom["f64"], math.Float64bits(f))
+	}
+	dom["f32"] = append(dom["f32"], 0x7F7FFFFF, 0x00000001, 0xFFC00001)
+	dom["f64"] = append(dom["f64"], 0x7FEFFFFFFFFFFFFF, 0x0000000000000001, 0xFFF8000000000001)
+	width := map[string]int{"i32": 32, "f32": 32, "i64": 64, "f64": 64}
+	isNaN := func(t string, b uint64) bool {
+		switch t {
+		case "f32":
+			return math.IsNaN(float64(math.Float32frombits(uint32(b))))
+		case "f64":
+			return math.IsNaN(math.Float64frombits(b))
+		}
+		return false
+	}
+	n := 0
+	for _, m := range wasmSpecOrder {
+		sp := wasmSpec[m]
+		if len(sp.Pushes) != 1 || len(sp.Pops) == 0 || len(sp.Pops) > 2 || sp.Imm != "" {
+			continue
+		}
+		if strings.Contains(m, "trunc_f") || strings.Contains(m, "convert_i") || strings.Contains(m, "trunc_sat") {
+			continue // x64-conversion-semantics
+		}
+		probe := make([]uint64, len(sp.Pops))
+		if _, _, ok := wasmNumeric(m, probe); !ok {
+			continue
+		}
+		k := "INS_" + strings.ToUpper(strings.ReplaceAll(m, ".", "_"))
+		arm, ok := arms[k]
+		if !ok {
+			continue // exhaustiveness is another rule's business
+		}
+		loc := p.Pos(arm.Clause.Pos())
+		lines, okL := x64ArmLines(info, arm)
+		pops, push := x64ArmSlots(arm)
+		if !okL || len(pops) != len(sp.Pops) || push == "" {
+			c.Undecided(rule, m, loc, "the arm is not a straight list of assembler lines with the instruction's operand slots")
+			continue
+		}
+		n++
+		aliased := false
+		for _, st := range arm.Body {
+			if es, ok := st.(*ast.ExprStmt); ok {
+				if call, ok := es.X.(*ast.CallExpr); ok {
+					if id, ok := call.Fun.(*ast.Ident); ok && id.Name == "assert" && len(call.Args) == 1 {
+						if t := strings.ReplaceAll(types.ExprString(call.Args[0]), " ", ""); t == pops[0]+"=="+push || t == push+"=="+pops[0] {
+							aliased = true
+						}
+					}
+				}
+			}
+		}
+		slot := func(t string, v uint64) x64Slot {
+			if width[t] == 32 {
+				return x64Slot{(v & 0xFFFFFFFF) | poison, 32}
+			}
+			return x64Slot{v, 64}
+		}
+		rt := sp.Pushes[0]
+		var bad []string
+		und := ""
+		cases := 0
+		try := func(a []uint64) {
+			want, trap, _ := wasmNumeric(m, a)
+			if trap || und != "" {
+				return
+			}
+			slots := map[string]x64Slot{}
+			// pops[0] is the last operand
+			for i := range a {
+				slots[pops[len(a)-1-i]] = slot(sp.Pops[i], a[i])
+			}
+			got, w, why := x64Run(lines, slots, push)
+			cases++
+			if why == "no store to the result slot" && aliased && len(a) == 1 {
+				// the result slot is the operand slot (asserted by the arm): the value stays where it is
+				got, w, why = a[0]&maskBits(width[rt]), width[rt], ""
+				if width[sp.Pops[0]] != width[rt] {
+					why = "operand and result of different widths share a slot and nothing is written"
+				}
+			}
+			if strings.HasPrefix(why, "#DE") {
+				if len(bad) < 3 {
+					bad = append(bad, fmt.Sprintf("%s%s: %s (WebAssembly answers %#x)", m, fmtOperands(a), why, want))
+				}
+				return
+			}
+			if why != "" {
+				und = why
+				return
+			}
+			same := w == width[rt] && (got == want || (isNaN(rt, got) && isNaN(rt, want)))
+			if !same && len(bad) < 3 {
+				bad = append(bad, fmt.Sprintf("%s%s stores %#x (%d-bit store), WebAssembly answers %#x", m, fmtOperands(a), got, w, want))
+			}
+		}
+		if len(sp.Pops) == 1 {
+			for _, x := range dom[sp.Pops[0]] {
+				try([]uint64{x})
+			}
+		} else {
+			for _, x := range dom[sp.Pops[0]] {
+				for _, y := range dom[sp.Pops[1]] {
+					try([]uint64{x, y})
+				}
+			}
+		}
+		if und != "" {
+			c.Undecided(rule, m, loc, und)
+			continue
+		}
+		c.Check(len(bad) == 0 && cases > 0, rule, m, loc, fmt.Sprintf("%d operand tuples agree with WebAssembly", cases), "interpreting the emitted instructions: "+strings.Join(bad, "; "))
+	}
+	c.Min(rule, "numeric arms of wat2x64 interpreted", n, 100)
+}
+
+func fmtOperands(a []uint64) string {
+	var s []string
+	for _, v := range a {
+		s = append(s, fmt.Sprintf("%#x", v))
+	}
+	return "(" + strings.Join(s, ", ") + ")"
 }
